@@ -109,6 +109,30 @@ CHECKS = {
 NOT_YET = {
 }
 
+# coverage added after the third round of seeded changes (appended to the level text)
+EXTRA = {
+ "C01": "Added: obtuse cell angles in every lattice; depth-2 thread histories (every ordered pair of 156 edge-of-validity states of all shapes read and scored one after the other on a fresh thread must score as on a thread of its own).",
+ "C02": "Added: every ordered pair of the ~340 shapes scored one after the other on a fresh thread (same component count and enclosing radius included) must score as alone.",
+ "C03": "Added: molecules whose particles have a well depth other than 1 (alone and next to a unit particle); like-particle pair energies of the oracle in closed form; obtuse cells and the re-descriptions of a p1/p2 crystal in the cells (A, B-A) and (A, B+A); every third state re-scored after decoy states that differ in one particle parameter.",
+ "C04": "Added: obtuse cells; every ordered pair of groups placed one after the other with bit-identical numbers on a fresh thread.",
+ "C05": "Added: configurations reached through used builders (decoy values first), and all 5040 orders of the seven setter calls for a selection of configurations (orders that behave unlike the parsed configuration are judged in full).",
+ "C06": "Added: as C05 for builder histories; runs with a convergence threshold, whose early exit must hand back what the same proposals hand back as a complete run.",
+ "C07": "Added: as C05 for builder histories; threshold measurements in later loops of cooling runs with and without a convergence threshold.",
+ "C08": "Added: moves of several whole ranges (max_step_size 6) on site parameters and the cell length (35 actions per state).",
+ "C09": "Added: chains of near-tied scores through every reduction tree; a three-site state with three different Wyckoff letters run repeatedly.",
+ "C10": "Added: every ordered pair of five commands sharing one --outfile (what the second leaves is what it writes to a fresh name).",
+ "C11": "Added: doubles that single precision holds exactly but that are not short decimals.",
+ "C12": "Added: mirrors in the diagonals (linear part with exactly zero diagonal) as relative and common motions; every ordered pair of shapes answered one after the other on a fresh thread.",
+ "C13": "Added: every ordered pair of like-particle kinds (the second judged right after the first was evaluated); unlike pairs re-evaluated in two other orders, bit for bit.",
+ "C14": "Added: side ratios above one, angles within 1e-9..1e-3 of a right angle and obtuse ones; every ordered pair of 36 cells computed one after the other on a fresh thread.",
+ "C15": "Added: operation lists the crate does not ship (p4, p3m1, offset glide); every ordered pair of groups placing the same site one after the other on a fresh thread.",
+ "C16": "Added: three passes over the table in two orders on one thread; every group built right after one of 19 valid or rejected operation strings went through the parser on a fresh thread.",
+ "C17": "Added: rejected-then-good pairs, the same text parsed twice, different texts parsed from one reused buffer.",
+ "C18": "Added: builder histories and all 5040 setter orders for a selection of schedules; schedules under a convergence threshold that the run stays below for fewer than six loops.",
+ "C19": "Added: parameters on and next to their bounds; builder histories and setter orders.",
+ "C20": "Added: builder histories; probe parameters that start outside their range or whose lower limit lies above the upper one (cell of tiny shapes).",
+}
+
 def main():
     props = [json.loads(l) for l in open('/verif/properties.jsonl')]
     checks = []
@@ -117,6 +141,8 @@ def main():
         pid = p["id"]
         if pid in CHECKS:
             eng, cat, tech, text, note, ref = CHECKS[pid]
+            if pid in EXTRA:
+                text = text + " " + EXTRA[pid]
             checks.append({
                 "property_id": pid,
                 "quick_cmd": f"./check {pid} quick",
